@@ -13,7 +13,9 @@ RULE = ("Hypothesis build programs (<= 10 items per circuit, nesting <= 2, 4 qub
         "DeclarativeCircuit.add under a generated global-duration override. Oracle: for the circuit and every "
         "sub-circuit the reported duration must equal max end - min start over the operations it lists (reported "
         "times), 0 when empty; and every operation FOLLOWED_BY a block none of whose operations start before the "
-        "block's start must start no earlier than every end inside the block. Non-trivial = some (sub-)circuit whose "
+        "block's start must start no earlier than every end inside the block; both clauses again after apply_modifiers(), "
+        "and in about half of the cases on the same objects (optionally flattened first) after the registry durations were "
+        "re-assigned and under a second generated global setting. Non-trivial = some (sub-)circuit whose "
         "latest-ending operation has a dependant (is not a relation leaf) or whose earliest-starting operation is not "
         "a first-placed one, according to the reference model; distinct = distinct canonical JSON of the program.")
 ASSUMPTIONS = [
@@ -32,7 +34,14 @@ def cfg():
 
 
 def strat():
-    return P.program_strategy(cfg())
+    from hypothesis import strategies as st
+    pos = st.sampled_from([0.25, 0.5, 1.0, 1.5, 2.0, 3.0, 7.0])
+    # "second": a second duration configuration for the same circuit objects after they were read once;
+    # "flat": the circuit is flattened before that
+    second = st.none() | st.fixed_dictionaries({
+        "g": st.lists(pos, min_size=4, max_size=4), "flat": st.booleans(),
+        "dreg": st.fixed_dictionaries({"k0": st.sampled_from(P.DYADIC), "k1": st.sampled_from(P.DYADIC)})})
+    return st.tuples(P.program_strategy(cfg()), second).map(lambda t: dict(t[0], second=t[1]))
 
 
 def off_leaf_circuits(root: M.MCirc):
@@ -61,6 +70,7 @@ def off_leaf_circuits(root: M.MCirc):
 
 def body(case, ctx):
     program = case
+    program.setdefault("second", None)
     st = P.stats(program)
     root = M.build(program)
     M.resolve(root)
@@ -69,7 +79,8 @@ def body(case, ctx):
     ctx.case(case, nontrivial=bool(off), classes=[
         f"off_leaf={bool(off)}", f"nesting={st['nesting']}", f"global={st['global']}",
         f"empty_sub={any(P.is_sub(it) and not it['sub']['items'] for _, it in P.iter_items(program['top']))}",
-        f"rel_types={''.join(st['rel_types'])}"])
+        f"rel_types={''.join(st['rel_types'])}", f"reconfigured={bool(program.get('second'))}",
+        f"flattened={bool(program.get('second') and program['second']['flat'])}"])
     facts = {"off_leaf_paths": [list(p) for p in off]}
     with P.global_override(program.get("g")):
         b = None
@@ -88,6 +99,37 @@ def body(case, ctx):
                 ops2 = mod.operations
             if ops2 is not None:
                 check_circuit(ctx, mod, ops2, "unrolled", facts, None)
+        # the same objects (unrolled in place above), optionally flattened, under a second duration configuration:
+        # the clauses hold for every configuration, not only the one the circuit was built and first read under
+        second = program.get("second")
+        if second:
+            target = b.circuit
+            if second["flat"]:
+                ops3 = None
+                with ctx.lib("flatten + list"):
+                    target = target.flatten()
+                    ops3 = target.operations
+                if ops3 is None:
+                    return
+                check_circuit(ctx, target, ops3, "flattened", facts, None)
+            dreg = program.get("dreg", {})
+            changed = False
+            with ctx.lib("change registry durations"):
+                for k in sorted(dreg):
+                    changed = changed or second["dreg"].get(k, dreg[k]) != dreg[k]
+                    b.duration_registry.set_registry_at(k, second["dreg"].get(k, dreg[k]))
+            if changed:
+                ops4 = None
+                with ctx.lib("list"):
+                    ops4 = target.operations
+                if ops4 is not None:
+                    check_circuit(ctx, target, ops4, "registry-reconfigured", facts, None)
+            with P.global_override(second["g"]):
+                ops5 = None
+                with ctx.lib("list"):
+                    ops5 = target.operations
+                if ops5 is not None:
+                    check_circuit(ctx, target, ops5, "global-reconfigured", facts, None)
 
 
 def check_circuit(ctx, circuit, ops, what, facts, n_subs):
